@@ -169,6 +169,10 @@ mut("C10-is-running-always-true", ["C10", "C09"], "is_running", (S, "        sel
 
 mut("C09-budget-from-opponents-clock", "C09", "time-budget", (S, "            Color::White => {\n                self.limits.white_time.unwrap_or(0) / 20", "            Color::White => {\n                self.limits.black_time.unwrap_or(0) / 20"))
 
+
+mut("C09-go-wtime-feeds-black-clock", "C09", "go-keyword", (UC, '"wtime" => {\n                    idx += 1;\n                    limits = limits.white_time(Some(', '"wtime" => {\n                    idx += 1;\n                    limits = limits.black_time(Some('))
+mut("C14-depth-setter-clamps", "C14", "limits-setter:depth", ("src/search/limits.rs", "        self.depth = depth;", "        self.depth = match depth { Some(d) if d > 64 => Some(64), other => other };"))
+
 # ---- seeded changes made to REFACTORED code: the rules must follow the extracted helpers and still see the breakage
 R = "selftest/refactors/"
 mut("R-C13-drop-child-guard-in-helper-form", "C13", "guard:search::Search::alpha_beta:write=insert[Lower]",
